@@ -100,6 +100,15 @@ func isOpsMembership(t, X *Term, op string) bool {
 	return false
 }
 
+// nonEmptyOn: the path has established len(x) != 0, spelt as !(0 == len(x)),
+// 0 < len(x) or !(len(x) < 1).
+func nonEmptyOn(p *Path, x string) bool {
+	return condHas(p, "binop<==>(0, len("+x+"))", false, bindings{}) ||
+		condHas(p, "binop<<>(0, len("+x+"))", true, bindings{}) ||
+		condHas(p, "binop<<>(len("+x+"), 1)", false, bindings{}) ||
+		condHas(p, "binop<<=>(1, len("+x+"))", true, bindings{})
+}
+
 func condHas(p *Path, pat string, val bool, b bindings) bool {
 	pt := mustPat(pat)
 	for _, c := range p.conds {
@@ -268,6 +277,11 @@ func runC15(r *Report, tier string) {
 				why = what
 			}
 		}
+		needNE := func(x string, what string) {
+			if why == "" && !nonEmptyOn(p, x) {
+				why = what
+			}
+		}
 		verify := condHas(p, "binop<==>($1, 2)", true, bindings{})
 		sign := condHas(p, "binop<==>($1, 1)", true, bindings{})
 		switch kty {
@@ -275,7 +289,7 @@ func runC15(r *Report, tier string) {
 			why = "a key with the reserved key type 0 passes the consistency check"
 		case "2":
 			need("binop<==>(0, res<0>("+EC2+"))", false, "EC2: reserved curve accepted")
-			if !(condHas(p, "binop<==>(0, len(res<1>("+EC2+")))", false, bindings{}) || condHas(p, "binop<==>(0, len(res<2>("+EC2+")))", false, bindings{}) || condHas(p, "binop<==>(0, len(res<3>("+EC2+")))", false, bindings{})) && why == "" {
+			if !(nonEmptyOn(p, "res<1>("+EC2+")") || nonEmptyOn(p, "res<2>("+EC2+")") || nonEmptyOn(p, "res<3>("+EC2+")")) && why == "" {
 				why = "EC2: a key without x, y and d is accepted"
 			}
 			if condHas(p, "binop<<>(0, call<%>(res<0>("+EC2+")))", true, bindings{}) {
@@ -289,15 +303,15 @@ func runC15(r *Report, tier string) {
 				need(fmt.Sprintf("binop<==>(%d, res<0>(%s))", c, EC2), false, fmt.Sprintf("EC2: curve %d (not an EC2 curve) accepted", c))
 			}
 			if verify {
-				need("binop<==>(0, len(res<1>("+EC2+")))", false, "EC2/verify: missing x accepted")
-				need("binop<==>(0, len(res<2>("+EC2+")))", false, "EC2/verify: missing y accepted")
+				needNE("res<1>("+EC2+")", "EC2/verify: missing x accepted")
+				needNE("res<2>("+EC2+")", "EC2/verify: missing y accepted")
 			}
 			if sign {
-				need("binop<==>(0, len(res<3>("+EC2+")))", false, "EC2/sign: missing d accepted")
+				needNE("res<3>("+EC2+")", "EC2/sign: missing d accepted")
 			}
 		case "1":
 			need("binop<==>(0, res<0>("+OKP+"))", false, "OKP: reserved curve accepted")
-			if !(condHas(p, "binop<==>(0, len(res<1>("+OKP+")))", false, bindings{}) || condHas(p, "binop<==>(0, len(res<2>("+OKP+")))", false, bindings{})) && why == "" {
+			if !(nonEmptyOn(p, "res<1>("+OKP+")") || nonEmptyOn(p, "res<2>("+OKP+")")) && why == "" {
 				why = "OKP: a key without x and d is accepted"
 			}
 			for i, n := range []string{"x", "d"} {
@@ -311,13 +325,13 @@ func runC15(r *Report, tier string) {
 				need(fmt.Sprintf("binop<==>(%d, res<0>(%s))", c, OKP), false, fmt.Sprintf("OKP: curve %d (a NIST P curve) accepted", c))
 			}
 			if verify {
-				need("binop<==>(0, len(res<1>("+OKP+")))", false, "OKP/verify: missing x accepted")
+				needNE("res<1>("+OKP+")", "OKP/verify: missing x accepted")
 			}
 			if sign {
-				need("binop<==>(0, len(res<2>("+OKP+")))", false, "OKP/sign: missing d accepted")
+				needNE("res<2>("+OKP+")", "OKP/sign: missing d accepted")
 			}
 		case "4":
-			need("binop<==>(0, len(call<(*Key).Symmetric>(%K)))", false, "symmetric: empty k accepted")
+			needNE("call<(*Key).Symmetric>(%K)", "symmetric: empty k accepted")
 		}
 		// algorithm consistency
 		if why == "" && !condHas(p, "binop<==>($0.Algorithm, 0)", true, bindings{}) {
